@@ -88,6 +88,14 @@ C09PopCases(len, lags, steps, solvers, kindsets) ==
         \A p, q \in 1..Len(cs.m.edges) : (cs.m.kind[cs.m.edges[p].s] = cs.m.kind[cs.m.edges[q].s])
                                             => cs.m.edges[p].lag = cs.m.edges[q].lag }
 
+(* an undelayed *global* (scalar-weight) Connectivity whose source variable also feeds a delayed matrix Connectivity:
+   populations p1 = {1, 2} (sources), p2 = {3, 4}, p3 = {5, 6} *)
+C09PopGlobalCases(lags, steps) ==
+  { [m |-> Mk(<<2, 0, 0, 0, 0, 0>>, <<0, 2, 0, 0, 0, 0>>, <<0, 1, 0, 7, 3, 5>>, <<<<>>, <<>>, <<>>, <<>>, <<>>, <<>>>>, <<1, 1, 2, 2, 3, 3>>,
+             <<Ed(1, 3, 2, l), Ed(2, 3, 6, l), Ed(1, 4, 0 - 4, l), Ed(2, 4, 10, l),
+               Ed(1, 5, g, 0), Ed(2, 5, g, 0), Ed(1, 6, g, 0), Ed(2, 6, g, 0)>>),
+     cfg |-> CfgPop(steps, 1, 0, "euler")] : l \in lags, g \in {3, 0 - 2} }
+
 (* ---- C08: extrinsic inputs into integrators, alone and together with edges ---- *)
 (* node 1: ramp source (kind 1); nodes 2, 3: integrators of kind 2 (merged by vectorisation), node 3 also decays.
    mode 1: input on node 2 only; mode 2: different inputs on nodes 2 and 3; mode 3: the same input on both. *)
